@@ -35,67 +35,14 @@ RULE += (' ' +
          'numbers, keys, JSON in non-canonical spellings); angles of any '
          'finite magnitude (floats to 1e300, ints to 2^80) against the exact '
          'rational oracle; overlapping calls (harness-owned preemption) on '
-         'every type. ')
-RULE += (' ' +
-         'Added in later rounds: strings of 1-2 MiB with multi-byte '
-         'characters off alignment and the 2^21 length-prefix boundary; BOM '
-         '/ NUL / line-separator characters; 31 look-alike texts (ids, '
-         'numbers, keys, JSON in non-canonical spellings); angles of any '
-         'finite magnitude (floats to 1e300, ints to 2^80) against the exact '
-         'rational oracle; overlapping calls (harness-owned preemption) on '
-         'every type. Round 11: every boundary value also dressed as another '
-         'Python type that is == to it (str subclass / str-mixin enum member '
-         'with a different str(), IntEnum member, int subclass, bool, int '
-         'for float, bytearray, bytes subclass, tuple for list). ')
-RULE += (' ' +
-         'Added in later rounds: strings of 1-2 MiB with multi-byte '
-         'characters off alignment and the 2^21 length-prefix boundary; BOM '
-         '/ NUL / line-separator characters; 31 look-alike texts (ids, '
-         'numbers, keys, JSON in non-canonical spellings); angles of any '
-         'finite magnitude (floats to 1e300, ints to 2^80) against the exact '
-         'rational oracle; overlapping calls (harness-owned preemption) on '
-         'every type. Round 11: every boundary value also dressed as another '
-         'Python type that is == to it (str subclass / str-mixin enum member '
-         'with a different str(), IntEnum member, int subclass, bool, int '
-         'for float, bytearray, bytes subclass, tuple for list). Round 12: '
-         'angles and fixed-point values as Fraction and Decimal. ')
-RULE += (' ' +
-         'Added in later rounds: strings of 1-2 MiB with multi-byte '
-         'characters off alignment and the 2^21 length-prefix boundary; BOM '
-         '/ NUL / line-separator characters; 31 look-alike texts (ids, '
-         'numbers, keys, JSON in non-canonical spellings); angles of any '
-         'finite magnitude (floats to 1e300, ints to 2^80) against the exact '
-         'rational oracle; overlapping calls (harness-owned preemption) on '
-         'every type. Round 11: every boundary value also dressed as another '
-         'Python type that is == to it (str subclass / str-mixin enum member '
-         'with a different str(), IntEnum member, int subclass, bool, int '
-         'for float, bytearray, bytes subclass, tuple for list). Round 12: '
-         'angles and fixed-point values as Fraction and Decimal. ')
-RULE += (' ' +
-         'Added in later rounds: strings of 1-2 MiB with multi-byte '
-         'characters off alignment and the 2^21 length-prefix boundary; BOM '
-         '/ NUL / line-separator characters; 31 look-alike texts (ids, '
-         'numbers, keys, JSON in non-canonical spellings); angles of any '
-         'finite magnitude (floats to 1e300, ints to 2^80) against the exact '
-         'rational oracle; overlapping calls (harness-owned preemption) on '
-         'every type. Round 11: every boundary value also dressed as another '
-         'Python type that is == to it (str subclass / str-mixin enum member '
-         'with a different str(), IntEnum member, int subclass, bool, int '
-         'for float, bytearray, bytes subclass, tuple for list). Round 12: '
-         'angles and fixed-point values as Fraction and Decimal. ')
-RULE += (' ' +
-         'Added in later rounds: strings of 1-2 MiB with multi-byte '
-         'characters off alignment and the 2^21 length-prefix boundary; BOM '
-         '/ NUL / line-separator characters; 31 look-alike texts (ids, '
-         'numbers, keys, JSON in non-canonical spellings); angles of any '
-         'finite magnitude (floats to 1e300, ints to 2^80) against the exact '
-         'rational oracle; overlapping calls (harness-owned preemption) on '
          'every type. Round 11: every boundary value also dressed as another '
          'Python type that is == to it (str subclass / str-mixin enum member '
          'with a different str(), IntEnum member, int subclass, bool, int '
          'for float, bytearray, bytes subclass, tuple for list). Round 12: '
          'angles and fixed-point values as Fraction and Decimal. Round 15: '
-         'codec calls run with warnings escalated to errors. ')
+         'codec calls run with warnings escalated to errors. Round 16: '
+         'off-grid fixed-point values inside the last partial quantum at '
+         'either end of the range. ')
 LEVEL_TEXT = ('Differential testing of every primitive wire type against an '
               'independent reference codec in both directions, exhaustive '
               'for all 8/16-bit types, booleans and angle bytes, sampled '
